@@ -751,10 +751,10 @@ Lemma handle_from_idle_spec cfg s from bc bytes d fid s2 o2 :
 Proof.
   rewrite handle_from_idle_eq. destruct (to_treq cfg from d) as [|eseq|ctl fn obj] eqn:Et.
   - intros H; inversion H; subst. split; [apply pres_refl|]. split; [left; reflexivity|].
-    constructor; try (intros; discriminate); [intros c []|left; reflexivity|intros; reflexivity].
+    constructor; [intros c []|left; reflexivity|intros; congruence|intros; reflexivity].
   - intros H. apply write_error_response_pres in H. destruct H as [A B].
     split; [eapply pres_sub; [|exact A]; reflexivity|]. split; [left; pget FCtl A; exact P|].
-    constructor; try (intros; discriminate).
+    constructor; [| |intros; congruence|intros; exact B].
     + intros c Hin. exfalso. exact (no_cb_In _ B _ Hin).
     + left. pget FSel A. exact P.
   - cbv zeta. destruct bc as [m|].
@@ -763,7 +763,7 @@ Proof.
       split; [eapply pres_sub; [|exact A]; reflexivity|]. split; [left; pget FCtl A; exact P|].
       constructor; try (intros; discriminate).
       - intros c [Hin|Hin]; [discriminate Hin|]. apply B in Hin. destruct Hin as [hdrs [rh [Ho [Hf Hn]]]].
-        subst obj. exists ctl, fn, hdrs, rh. split; [reflexivity|]. split; [exact Hf|]. split; [intros _; exact Hn|].
+        subst obj. exists ctl, fn, hdrs, rh. split; [exact Et|]. split; [exact Hf|]. split; [intros _; exact Hn|].
         intros Hc. exfalso. tauto.
       - left. pget FSel A. exact P. }
     unfold classify. destruct (fn =? fn_confirm) eqn:E0.
@@ -774,7 +774,7 @@ Proof.
         constructor.
         - intros c [Hin|[]]; discriminate Hin.
         - left; reflexivity.
-        - intros _ ctl' fn' hdrs rh Ht Hn _. inversion Ht; subst. congruence.
+        - intros _ ctl' fn' hdrs rh Ht Hn _. rewrite Et in Ht; inversion Ht; subst. congruence.
         - intros; reflexivity. }
       destruct (ctl_uns ctl); exact Hgen. }
     apply N.eqb_neq in E0.
@@ -784,7 +784,7 @@ Proof.
       constructor.
       - intros c Hin. rewrite D in Hin. apply in_ocb_split in Hin; [destruct Hin|reflexivity|exact E].
       - left. pget FSel A. exact P.
-      - intros _ ctl' fn' hdrs rh Ht. inversion Ht.
+      - intros _ ctl' fn' hdrs rh Ht. congruence.
       - intros _ ctl' fn' obj' _ _. rewrite D. apply no_cb_app. split; [reflexivity|exact E]. }
     change (match s_last s with Some l => (lr_seq l =? ctl_seq ctl) && bytes_eqb (lr_bytes l) bytes | None => false end)
       with (repeat_flag (s_last s) (ctl_seq ctl) bytes).
@@ -802,7 +802,7 @@ Proof.
       constructor.
       - intros c Hin. exfalso. exact (no_cb_In _ Hno _ Hin).
       - left. pget FSel A. pget FSel A0. congruence.
-      - intros _ ctl' fn' hdrs' rh' Ht _ Hn. inversion Ht; subst. congruence.
+      - intros _ ctl' fn' hdrs' rh' Ht _ Hn. rewrite Et in Ht; inversion Ht; subst. congruence.
       - intros; exact Hno. }
     destruct (repeat_flag (s_last s) (ctl_seq ctl) bytes) eqn:Er.
     + destruct (fn =? fn_read) eqn:E1; [apply N.eqb_eq in E1; intros H; apply Hread; assumption|].
@@ -822,7 +822,7 @@ Proof.
       * pget FSel A. rewrite P. unfold rebase_if_fresh. destruct (s_select s) as [sel|] eqn:Es; [|left; exact Es].
         destruct ((ss_frame_id sel + 1) mod 4294967296 =? fid) eqn:Ef; [|left; exact Es].
         right. right. apply N.eqb_eq in Ef. exists sel, ctl, fn, hdrs, rh. repeat split; auto.
-      * intros _ ctl' fn' hdrs' rh' Ht _ _. inversion Ht; subst. exact B.
+      * intros _ ctl' fn' hdrs' rh' Ht _ _. rewrite Et in Ht; inversion Ht; subst. exact B.
       * intros; exact Hno.
     + destruct (fn =? fn_read) eqn:E1; [apply N.eqb_eq in E1; intros H; apply Hread; assumption|].
       apply N.eqb_neq in E1. clear Hread.
@@ -833,13 +833,653 @@ Proof.
       split; [pget FCtl A0; rewrite <- P; exact C|].
       constructor.
       * intros c Hin. rewrite D in Hin. apply in_ocb_split in Hin; [|reflexivity|exact E].
-        apply B0 in Hin. destruct Hin as [H1 H2]. exists ctl, fn, hdrs, rh. split; [reflexivity|].
+        apply B0 in Hin. destruct Hin as [H1 H2]. exists ctl, fn, hdrs, rh. split; [exact Et|].
         split; [exact H1|]. split; [intros Hc; congruence|exact H2].
       * pget FSel A. destruct C0 as [C0|C0]; [left; congruence|].
         right. left. destruct C0 as [echo [cbs [started [Hfn [Hall [Hctl [Hsel Hincl]]]]]]].
-        subst fn. exists ctl, hdrs, rh. split; [reflexivity|]. split; [reflexivity|].
+        subst fn. exists ctl, hdrs, rh. split; [reflexivity|]. split; [exact Et|].
         exists echo, cbs, started. repeat split; auto; [congruence|].
         intros x Hx. rewrite D. apply in_or_app. right. apply in_or_app. left. auto.
-      * intros _ ctl' fn' hdrs' rh' Ht _ _. inversion Ht; subst. exact B.
-      * intros _ ctl' fn' obj' Ht Hl. inversion Ht; subst. apply repeat_flag_iff in Hl. congruence.
+      * intros _ ctl' fn' hdrs' rh' Ht _ _. rewrite Et in Ht; inversion Ht; subst. exact B.
+      * intros _ ctl' fn' obj' Ht Hl. rewrite Et in Ht; inversion Ht; subst. apply repeat_flag_iff in Hl. congruence.
+Qed.
+
+(* ---------- the echo depends on the state only through the handler knobs ---------- *)
+Lemma item_status_ext s s' cfg mode num :
+  s_sel_status s' = s_sel_status s -> s_op_status s' = s_op_status s ->
+  item_status s' cfg mode num = item_status s cfg mode num.
+Proof. intros H1 H2. unfold item_status. rewrite H1, H2. reflexivity. Qed.
+
+Lemma ctl_one_header_ext s s' cfg cap mode g v prefix items :
+  s_sel_status s' = s_sel_status s -> s_op_status s' = s_op_status s ->
+  forall written n hs num started,
+  ctl_one_header s' cfg cap mode g v prefix written n hs num started items =
+  ctl_one_header s cfg cap mode g v prefix written n hs num started items.
+Proof.
+  intros H1 H2. induction items as [|[idx obj] rest IH]; intros written n hs num started; cbn [ctl_one_header].
+  - reflexivity.
+  - rewrite (item_status_ext s s' cfg mode num H1 H2).
+    destruct (item_status s cfg mode num) as [st consulted].
+    destruct (echo_items cap g v prefix written n hs [(idx, replace_status obj st)]) as [w1 ok].
+    destruct ok; [|reflexivity]. rewrite IH. reflexivity.
+Qed.
+
+Lemma ctl_headers_ext s s' cfg cap mode hdrs :
+  s_sel_status s' = s_sel_status s -> s_op_status s' = s_op_status s ->
+  forall written num started,
+  ctl_headers s' cfg cap mode written num started hdrs = ctl_headers s cfg cap mode written num started hdrs.
+Proof.
+  intros H1 H2. induction hdrs as [|h rest IH]; intros written num started; cbn [ctl_headers].
+  - reflexivity.
+  - destruct h; try apply IH.
+    rewrite (ctl_one_header_ext s s' cfg cap mode g v prefix items H1 H2).
+    destruct (ctl_one_header s cfg cap mode g v prefix written 0 (length written) num started items)
+      as [[[[[w1 ok] cbs] st] num1] started1].
+    destruct ok; [|reflexivity]. rewrite IH. reflexivity.
+Qed.
+
+Lemma op_matched_ext cfg s s' seq fid bytes :
+  s_select s' = s_select s -> s_now s' = s_now s ->
+  op_matched cfg s' seq fid bytes -> op_matched cfg s seq fid bytes.
+Proof.
+  intros H1 H2 [sel [A B]]. exists sel. split; [congruence|]. unfold match_operate in *. rewrite <- H2. exact B.
+Qed.
+
+Lemma sel_established_ext cfg s s' fn seq fid bytes hdrs s2 o :
+  s_sel_status s' = s_sel_status s -> s_op_status s' = s_op_status s -> s_now s' = s_now s ->
+  sel_established cfg s' fn seq fid bytes hdrs s2 o -> sel_established cfg s fn seq fid bytes hdrs s2 o.
+Proof.
+  intros H1 H2 H3 [echo [cbs [started [A [B [C [D E]]]]]]]. exists echo, cbs, started.
+  rewrite (ctl_headers_ext s s' cfg _ _ hdrs H1 H2) in C. rewrite H3 in D. auto.
+Qed.
+
+(* ---------- a fragment in the unsolicited confirm wait ---------- *)
+Definition funsol : list fld := [FNow; FFid; FSelSt; FOpSt; FPend; FNotify; FCtl].
+
+Lemma unsol_wait_fragment_spec cfg s resp from bc bytes d fid s2 res o2 :
+  unsol_wait_fragment cfg s resp from bc bytes d fid = (s2, res, o2) ->
+  pres funsol s s2 /\ frag_spec cfg s from bc bytes d fid s2 o2.
+Proof.
+  unfold unsol_wait_fragment. destruct (to_treq cfg from d) as [|eseq|ctl fn obj] eqn:Et.
+  - intros H; inversion H; subst. split; [apply pres_refl|].
+    constructor; [intros c []|left; reflexivity|intros; congruence|intros; reflexivity].
+  - destruct (write_error_response (upd_deferred s None) from bc eseq) as [s1 o] eqn:Ew.
+    apply write_error_response_pres in Ew. destruct Ew as [A B]. intros H; inversion H; subst s2 res o2.
+    assert (P0 : pres funsol s (upd_deferred s None)) by pres_now.
+    split; [exact (pres_trans2 funsol fall funsol _ _ _ eq_refl eq_refl P0 A)|].
+    constructor; [| |intros; congruence|intros; exact B].
+    + intros c Hin. exfalso. exact (no_cb_In _ B _ Hin).
+    + left. pget FSel A. exact P.
+  - cbv zeta. destruct bc as [m|].
+    { cbn [classify]. destruct (process_broadcast cfg (upd_deferred s None) m fid ctl fn bytes obj) as [s1 o1] eqn:Ep.
+      apply process_broadcast_spec in Ep. destruct Ep as [A B]. intros H; inversion H; subst s2 res o2. clear H.
+      assert (P0 : pres funsol s (upd_deferred s None)) by pres_now.
+      split; [exact (pres_trans2 funsol fall funsol _ _ _ eq_refl eq_refl P0 A)|].
+      constructor; try (intros; discriminate).
+      - intros c Hin. apply B in Hin. destruct Hin as [hdrs [rh [Ho [Hf Hn]]]].
+        subst obj. exists ctl, fn, hdrs, rh. split; [exact Et|]. split; [exact Hf|]. split; [intros _; exact Hn|].
+        intros Hc. exfalso. tauto.
+      - left. pget FSel A. exact P. }
+    unfold classify. destruct (fn =? fn_confirm) eqn:E0.
+    { apply N.eqb_eq in E0.
+      assert (Hgen : forall s', pres funsol s s' -> s_select s' = s_select s -> forall res',
+                (s', res', @nil oobs) = (s2, res, o2) \/ (exists q, (s', res', [OInfo (IUnsolConfirmed q)]) = (s2, res, o2)) ->
+                pres funsol s s2 /\ frag_spec cfg s from None bytes d fid s2 o2).
+      { intros s' Hp Hs res' H.
+        assert (Hno : s' = s2 /\ no_cb o2 /\ forall c, ~ In (OCb c) o2).
+        { destruct H as [H|[q H]]; inversion H; subst; split; try reflexivity; split; try reflexivity.
+          - intros c [].
+          - intros c [Hc|[]]; discriminate Hc. }
+        destruct Hno as [? [Hno Hno2]]. subst s'. split; [exact Hp|].
+        constructor.
+        - intros c Hin. exfalso. exact (Hno2 _ Hin).
+        - left; exact Hs.
+        - intros _ ctl' fn' hdrs rh Ht Hn _. rewrite Et in Ht; inversion Ht; subst. congruence.
+        - intros; exact Hno. }
+      destruct (ctl_uns ctl).
+      - destruct (ctl_seq ctl =? ctl_seq (r_ctl resp)); intros H.
+        + eapply (Hgen (upd_last_bcast s None)); [pres_now|reflexivity|right; eexists; exact H].
+        + eapply (Hgen s); [apply pres_refl|reflexivity|left; exact H].
+      - intros H. eapply (Hgen (match s_last_bcast s with Some BMandatory => upd_last_bcast s None | _ => s end));
+          [| |left; exact H]; destruct (s_last_bcast s) as [[]|]; try apply pres_refl; try reflexivity; pres_now. }
+    apply N.eqb_neq in E0.
+    destruct obj as [iin2|hdrs rh].
+    { destruct (write_solicited (upd_deferred s None) from (empty_solicited (ctl_seq ctl) iin2)) as [[s1 r1] o1] eqn:Ew.
+      apply write_solicited_pres in Ew. destruct Ew as [A [B _]]. intros H; inversion H; subst s2 res o2.
+      assert (P0 : pres funsol s (upd_deferred s None)) by pres_now.
+      split; [exact (pres_trans2 funsol fall funsol _ _ _ eq_refl eq_refl P0 A)|].
+      constructor; [| |intros; congruence|intros; exact B].
+      + intros c Hin. exfalso. exact (no_cb_In _ B _ Hin).
+      + left. pget FSel A. exact P. }
+    change (match s_last s with Some l => (lr_seq l =? ctl_seq ctl) && bytes_eqb (lr_bytes l) bytes | None => false end)
+      with (repeat_flag (s_last s) (ctl_seq ctl) bytes).
+    assert (Hread : (deferred_set s bytes (ctl_seq ctl) from rh, @None unsol_result, @nil oobs) = (s2, res, o2) ->
+                    fn = fn_read -> pres funsol s s2 /\ frag_spec cfg s from None bytes d fid s2 o2).
+    { intros H Hfn. inversion H; subst s2 res o2. split; [unfold deferred_set; pres_now|].
+      constructor.
+      - intros c [].
+      - left; reflexivity.
+      - intros _ ctl' fn' hdrs' rh' Ht _ Hn. rewrite Et in Ht; inversion Ht; subst. congruence.
+      - intros; reflexivity. }
+    destruct (repeat_flag (s_last s) (ctl_seq ctl) bytes) eqn:Er.
+    + destruct (fn =? fn_read) eqn:E1; [apply N.eqb_eq in E1; intros H; apply Hread; assumption|].
+      apply N.eqb_neq in E1. clear Hread. apply repeat_flag_iff in Er.
+      intros H; inversion H; subst s2 res o2. clear H. split; [pres_now|].
+      assert (Hno : no_cb match (match s_last s with Some l => lr_response l | None => None end) with
+                          | Some r => repeat_solicited s from r | None => [] end).
+      { destruct (match s_last s with Some l => lr_response l | None => None end); reflexivity. }
+      constructor.
+      * intros c Hin. exfalso. exact (no_cb_In _ Hno _ Hin).
+      * left; reflexivity.
+      * intros _ ctl' fn' hdrs' rh' Ht _ _. rewrite Et in Ht; inversion Ht; subst. exact Er.
+      * intros; exact Hno.
+    + destruct (fn =? fn_read) eqn:E1; [apply N.eqb_eq in E1; intros H; apply Hread; assumption|].
+      apply N.eqb_neq in E1. clear Hread.
+      destruct (handle_non_read cfg (upd_deferred s None) fn (ctl_seq ctl) fid bytes hdrs) as [[s1 r] o1] eqn:Eh.
+      apply handle_non_read_spec in Eh. destruct Eh as [A0 [B0 C0]].
+      assert (P0 : pres funsol s (upd_deferred s None)) by pres_now.
+      assert (Hw : exists s3 r' o3, pres fall s1 s3 /\ no_cb o3 /\
+                 match r with
+                 | Some r0 => let '(s2, r1, o2) := write_solicited s1 from r0 in (s2, Some r1, o2)
+                 | None => (s1, None, [])
+                 end = (s3, r', o3)).
+      { destruct r as [r0|].
+        - destruct (write_solicited s1 from r0) as [[s3 r1] o3] eqn:Ew. apply write_solicited_pres in Ew.
+          destruct Ew as [A [B _]]. exists s3, (Some r1), o3. auto.
+        - exists s1, None, []. split; [apply pres_refl|]. split; reflexivity. }
+      destruct Hw as [s3 [r' [o3 [A3 [B3 Hw]]]]]. rewrite Hw.
+      intros H; inversion H; subst s2 res o2. clear H.
+      assert (P3 : pres funsol s s3).
+      { apply (pres_trans2 funsol funsol funsol _ (upd_deferred s None) _ eq_refl eq_refl P0).
+        exact (pres_trans2 fctl fall funsol _ _ _ eq_refl eq_refl A0 A3). }
+      split; [apply (pres_trans funsol _ s3 _ P3); pres_now|].
+      constructor.
+      * intros c Hin. apply in_app_or in Hin. destruct Hin as [Hin|Hin]; [|exfalso; exact (no_cb_In _ B3 _ Hin)].
+        apply B0 in Hin. destruct Hin as [H1 H2]. exists ctl, fn, hdrs, rh. split; [exact Et|].
+        split; [exact H1|]. split; [intros Hc; congruence|].
+        intros Hf. apply H2 in Hf. revert Hf. apply op_matched_ext; reflexivity.
+      * pget FSel A3. prj. destruct C0 as [C0|C0]; [left; prj; congruence|].
+        right. left. destruct C0 as [echo [cbs [started [Hfn [Hall [Hctl [Hsel Hincl]]]]]]].
+        subst fn. exists ctl, hdrs, rh. split; [reflexivity|]. split; [exact Et|].
+        apply (sel_established_ext cfg s (upd_deferred s None)); try reflexivity.
+        exists echo, cbs, started. repeat split; auto; [prj; congruence|].
+        intros x Hx. apply in_or_app. left. auto.
+      * intros _ ctl' fn' hdrs' rh' Ht _ _. rewrite Et in Ht; inversion Ht; subst.
+        eexists. split; [reflexivity|]. split; reflexivity.
+      * intros _ ctl' fn' obj' Ht Hl. rewrite Et in Ht; inversion Ht; subst. apply repeat_flag_iff in Hl. congruence.
+Qed.
+
+(* ---------- quiet parts of the idle loop ---------- *)
+Definition fnoctl : list fld := [FNow; FFid; FSelSt; FOpSt; FPend; FNotify; FDef; FLast; FSel; FBuf].
+
+Lemma start_unsol_spec cfg s r is_null s1 o :
+  start_unsol cfg s r is_null = (s1, o) ->
+  pres fnoctl s s1 /\ no_cb o /\ exists r1 rt dl, s_control s1 = CUnsolWait r1 is_null rt dl.
+Proof.
+  unfold start_unsol. destruct (write_unsolicited cfg s r) as [[s0 r1] o0] eqn:E.
+  apply write_unsolicited_pres in E. destruct E as [A B]. intros H; inversion H; subst.
+  split; [apply (pres_trans2 fall fnoctl fnoctl _ s0 _ eq_refl eq_refl A); pres_now|].
+  split; [apply no_cb_app; split; [exact B|reflexivity]|]. eexists; eexists; eexists; reflexivity.
+Qed.
+
+Lemma check_unsolicited_spec cfg s s1 ns o :
+  check_unsolicited cfg s = (s1, ns, o) ->
+  pres fnoctl s s1 /\ no_cb o /\
+  (s_control s1 = s_control s \/ exists r1 isn rt dl, s_control s1 = CUnsolWait r1 isn rt dl).
+Proof.
+  unfold check_unsolicited.
+  assert (Hsame : (s, false, @nil oobs) = (s1, ns, o) -> pres fnoctl s s1 /\ no_cb o /\
+            (s_control s1 = s_control s \/ exists r1 isn rt dl, s_control s1 = CUnsolWait r1 isn rt dl)).
+  { intros H; inversion H; subst. split; [apply pres_refl|]. split; [reflexivity|left; reflexivity]. }
+  destruct (negb (o_unsol cfg)); [exact Hsame|].
+  destruct (s_unsol s) as [|deadline].
+  - destruct (start_unsol cfg (upd_unsol_seq s (seq16_next (s_unsol_seq s))) (unsol_header (s_unsol_seq s) 0) true)
+      as [s2 o2] eqn:E.
+    apply start_unsol_spec in E. destruct E as [A [B [r1 [rt [dl C]]]]]. intros H; inversion H; subst.
+    split; [apply (pres_trans fnoctl _ (upd_unsol_seq s (seq16_next (s_unsol_seq s))) _); [pres_now|exact A]|].
+    split; [exact B|]. right. eexists; eexists; eexists; eexists; exact C.
+  - destruct (negb match deadline with Some t => (t <=? s_now s)%Z | None => true end); [exact Hsame|].
+    destruct (negb (any_enabled s)); [exact Hsame|].
+    destruct (ask_unsol s) as [s0 [count body]] eqn:E. apply ask_unsol_pres in E.
+    destruct (s_enabled s) as [[c1 c2] c3].
+    destruct (count =? 0).
+    { intros H; inversion H; subst. split; [eapply pres_sub; [|exact E]; reflexivity|].
+      split; [reflexivity|]. left. pget FCtl E. exact P. }
+    match goal with |- context [start_unsol cfg ?S ?R false] => destruct (start_unsol cfg S R false) as [s3 o3] eqn:E3;
+      assert (P3 : pres fnoctl s0 S) by pres_now end.
+    apply start_unsol_spec in E3. destruct E3 as [A [B [r1 [rt [dl C]]]]]. intros H; inversion H; subst.
+    split; [apply (pres_trans2 fall fnoctl fnoctl _ s0 _ eq_refl eq_refl E); eapply pres_trans; eauto|].
+    split; [apply no_cb_cons; split; [reflexivity|exact B]|]. right. eexists; eexists; eexists; eexists; exact C.
+Qed.
+
+Definition fdef : list fld := [FNow; FFid; FSelSt; FOpSt; FPend; FSel].
+
+Lemma handle_deferred_spec cfg s nosleep s1 o :
+  handle_deferred cfg s nosleep = (s1, o) ->
+  pres fdef s s1 /\ no_cb o /\ s_deferred s1 = None /\
+  (s_deferred s = None -> s1 = s) /\
+  (s_control s1 = s_control s \/ exists x dl, s_control s1 = CSolWait x dl (RStep4 nosleep)).
+Proof.
+  unfold handle_deferred. destruct (s_deferred s) as [d|] eqn:Ed.
+  2:{ intros H; inversion H; subst. split; [apply pres_refl|]. split; [reflexivity|]. split; [exact Ed|].
+      split; [reflexivity|left; reflexivity]. }
+  destruct (ask_iin2 (upd_notify (upd_deferred s None) true) DbDeferredSelect) as [[sa iin2] oa] eqn:Ea.
+  apply ask_iin2_pres in Ea. destruct Ea as [A1 A2].
+  destruct (format_read_response sa true (df_seq d) (N.lor (df_iin2 d) iin2)) as [[[sb r] se] ob] eqn:Eb.
+  apply format_read_response_pres in Eb. destruct Eb as [B1 B2].
+  destruct (write_solicited sb (df_from d) r) as [[sc r'] oc] eqn:Ec.
+  apply write_solicited_pres in Ec. destruct Ec as [C1 [C2 _]].
+  assert (P0 : pres fdef s (upd_notify (upd_deferred s None) true)) by pres_now.
+  assert (Pc : pres fdef s sc).
+  { apply (pres_trans fdef _ _ _ P0). apply (pres_trans2 fall fnobuf fdef _ sa _ eq_refl eq_refl A1).
+    exact (pres_trans2 fnobuf fall fnobuf _ sb _ eq_refl eq_refl B1 C1). }
+  assert (Dc : s_deferred sc = None).
+  { pget FDef A1. pget FDef B1. pget FDef C1. prj. congruence. }
+  assert (Cc : s_control sc = s_control s).
+  { pget FCtl A1. pget FCtl B1. pget FCtl C1. prj. congruence. }
+  cbv zeta.
+  destruct se as [x|]; [|destruct (ctl_con (r_ctl r'))]; intros H; inversion H; subst s1 o; clear H;
+    (split; [apply (pres_trans fdef _ sc _ Pc); pres_now|]);
+    (split; [repeat (apply no_cb_app; split); auto; reflexivity|]);
+    (split; [prj; exact Dc|]); (split; [intros Hc; discriminate Hc|]);
+    first [left; prj; exact Cc | right; eexists; eexists; reflexivity].
+Qed.
+
+Lemma end_unsol_spec cfg s is_null res s1 ns o :
+  end_unsol cfg s is_null res = (s1, ns, o) ->
+  pres fnoctl s s1 /\ no_cb o /\ s_control s1 = CIdle.
+Proof.
+  unfold end_unsol. destruct is_null; destruct res; intros H; inversion H; subst;
+    (split; [pres_now|split; reflexivity]).
+Qed.
+
+(* ---------- idle_run: at most one fragment is processed, everything else is quiet ---------- *)
+Definition fq : list fld := [FNow; FFid; FSelSt; FOpSt; FSel].
+
+Definition quiet (s s' : ostate) (o : list oobs) : Prop :=
+  pres fq s s' /\ no_cb o /\ (s_deferred s = None -> s_deferred s' = None /\ s_last s' = s_last s).
+
+Lemma quiet_refl s : quiet s s [].
+Proof. split; [apply pres_refl|]. split; [reflexivity|auto]. Qed.
+
+Lemma quiet_trans s1 s2 s3 o1 o2 : quiet s1 s2 o1 -> quiet s2 s3 o2 -> quiet s1 s3 (o1 ++ o2).
+Proof.
+  intros [A1 [B1 C1]] [A2 [B2 C2]]. split; [eapply pres_trans; eauto|]. split; [apply no_cb_app; auto|].
+  intros H. destruct (C1 H) as [D1 L1]. destruct (C2 D1) as [D2 L2]. split; [exact D2|congruence].
+Qed.
+
+Lemma quiet_of_pres fs s s' o :
+  fsub [FNow; FFid; FSelSt; FOpSt; FSel; FDef; FLast] fs = true -> pres fs s s' -> no_cb o -> quiet s s' o.
+Proof.
+  intros Hs Hp Hn. apply (pres_sub _ _ _ _ Hs) in Hp. split; [eapply pres_sub; [|exact Hp]; reflexivity|].
+  split; [exact Hn|]. pget FDef Hp. pget FLast Hp. intros H. split; congruence.
+Qed.
+
+Definition frag : Type := (N * option bcast_mode * list N * digest * N)%type.
+
+Definition proc (cfg : ocfg) (sm : ostate) (fr : frag) (s2 : ostate) (o2 : list oobs) : Prop :=
+  let '(from, bc, bytes, d, fid) := fr in
+  handle_from_idle cfg sm from bc bytes d fid = (s2, o2) \/
+  exists resp res, unsol_wait_fragment cfg sm resp from bc bytes d fid = (s2, res, o2).
+
+Definition ir_res (cfg : ocfg) (s s' : ostate) (out : list oobs) : Prop :=
+  (quiet s s' out /\ s_pending s' = s_pending s) \/
+  (exists fr sm s2 o1 o2 o3, s_pending s = Some fr /\ quiet s sm o1 /\ s_pending sm = None /\
+     proc cfg sm fr s2 o2 /\ quiet s2 s' o3 /\ s_pending s' = None /\ out = o1 ++ o2 ++ o3).
+
+Lemma ir_res_before cfg s s1 s' oa ob :
+  quiet s s1 oa -> s_pending s1 = s_pending s -> ir_res cfg s1 s' ob -> ir_res cfg s s' (oa ++ ob).
+Proof.
+  intros Hq Hp [[Hq1 Hp1]|[fr [sm [s2 [o1 [o2 [o3 [P1 [Q1 [P2 [Hpr [Q2 [P3 Ho]]]]]]]]]]]]].
+  - left. split; [eapply quiet_trans; eauto|congruence].
+  - right. exists fr, sm, s2, (oa ++ o1), o2, o3. split; [congruence|]. split; [eapply quiet_trans; eauto|].
+    split; [exact P2|]. split; [exact Hpr|]. split; [exact Q2|]. split; [exact P3|]. rewrite Ho, <- app_assoc. reflexivity.
+Qed.
+
+Lemma ir_res_none_quiet cfg s s' out :
+  s_pending s = None -> ir_res cfg s s' out -> quiet s s' out /\ s_pending s' = None.
+Proof.
+  intros Hp [[Hq Hp1]|[fr [sm [s2 [o1 [o2 [o3 [P1 _]]]]]]]]; [split; [exact Hq|congruence]|congruence].
+Qed.
+
+Lemma proc_pending cfg sm fr s2 o2 : proc cfg sm fr s2 o2 -> s_pending s2 = s_pending sm.
+Proof.
+  destruct fr as [[[[from bc] bytes] d] fid]. intros [H|[resp [res H]]].
+  - apply handle_from_idle_spec in H. destruct H as [A _]. pget FPend A. exact P.
+  - apply unsol_wait_fragment_spec in H. destruct H as [A _]. pget FPend A. exact P.
+Qed.
+
+Lemma idle_run_safe cfg : forall f st s s' out, idle_run f cfg st s = (s', out) -> ir_res cfg s s' out.
+Proof.
+  induction f as [|f IH]; intros st s s' out H.
+  { cbn [idle_run] in H. inversion H; subst. left. split; [|reflexivity].
+    split; [apply pres_refl|]. split; [reflexivity|auto]. }
+  cbn [idle_run] in H. destruct st as [| |ns|ns].
+  - (* St1 *)
+    destruct (s_pending s) as [[[[[from bc] bytes] d] fid]|] eqn:Ep.
+    + destruct (handle_from_idle cfg (upd_pending s None) from bc bytes d fid) as [s1 o1] eqn:Eh.
+      assert (Hpr : proc cfg (upd_pending s None) (from, bc, bytes, d, fid) s1 o1) by (left; exact Eh).
+      assert (Hp1 : s_pending s1 = None) by (rewrite (proc_pending _ _ _ _ _ Hpr); reflexivity).
+      assert (Hq0 : quiet s (upd_pending s None) []).
+      { apply (quiet_of_pres [FNow; FFid; FSelSt; FOpSt; FSel; FDef; FLast]); [reflexivity| |reflexivity]. pres_now. }
+      destruct (s_control s1) eqn:Ec.
+      * destruct (idle_run f cfg St2 s1) as [s2 o2] eqn:Er. inversion H; subst s' out. clear H.
+        apply IH in Er. apply (ir_res_none_quiet _ _ _ _ Hp1) in Er. destruct Er as [Q2 P2].
+        right. exists (from, bc, bytes, d, fid), (upd_pending s None), s1, [], o1, o2.
+        split; [exact Ep|]. split; [exact Hq0|]. split; [reflexivity|]. split; [exact Hpr|].
+        split; [exact Q2|]. split; [exact P2|reflexivity].
+      * inversion H; subst s' out. clear H.
+        right. exists (from, bc, bytes, d, fid), (upd_pending s None), s1, [], o1, [].
+        rewrite app_nil_r. split; [exact Ep|]. split; [exact Hq0|]. split; [reflexivity|]. split; [exact Hpr|].
+        split; [apply quiet_refl|]. split; [exact Hp1|reflexivity].
+      * inversion H; subst s' out. clear H.
+        right. exists (from, bc, bytes, d, fid), (upd_pending s None), s1, [], o1, [].
+        rewrite app_nil_r. split; [exact Ep|]. split; [exact Hq0|]. split; [reflexivity|]. split; [exact Hpr|].
+        split; [apply quiet_refl|]. split; [exact Hp1|reflexivity].
+    + destruct (s_control s) eqn:Ec.
+      * destruct (idle_run f cfg St2 s) as [s2 o2] eqn:Er. inversion H; subst s' out. apply IH in Er. exact Er.
+      * inversion H; subst. left. split; [apply quiet_refl|reflexivity].
+      * inversion H; subst. left. split; [apply quiet_refl|reflexivity].
+  - (* St2 *)
+    destruct (check_unsolicited cfg s) as [[s2 ns2] o2] eqn:Ecu.
+    apply check_unsolicited_spec in Ecu. destruct Ecu as [A [B C]].
+    assert (Hq : quiet s s2 o2) by (apply (quiet_of_pres fnoctl); auto).
+    assert (Hp : s_pending s2 = s_pending s) by (pget FPend A; exact P).
+    destruct (s_control s2) as [|se dl rs|resp is_null rt dl] eqn:Ec.
+    + destruct (idle_run f cfg (St3 false) s2) as [s3 o3] eqn:Er. inversion H; subst s' out.
+      apply IH in Er. eapply ir_res_before; eauto.
+    + inversion H; subst s' out. left. split; [exact Hq|exact Hp].
+    + destruct (s_pending s2) as [[[[[from bc] bytes] d] fid]|] eqn:Ep2.
+      2:{ inversion H; subst s' out. left. split; [exact Hq|congruence]. }
+      destruct (unsol_wait_fragment cfg (upd_pending s2 None) resp from bc bytes d fid) as [[s3 res] o3] eqn:Eu.
+      assert (Hpr : proc cfg (upd_pending s2 None) (from, bc, bytes, d, fid) s3 o3) by (right; eauto).
+      assert (Hp3 : s_pending s3 = None) by (rewrite (proc_pending _ _ _ _ _ Hpr); reflexivity).
+      assert (Hq0 : quiet s (upd_pending s2 None) (o2 ++ [])).
+      { eapply quiet_trans; [exact Hq|]. apply (quiet_of_pres [FNow; FFid; FSelSt; FOpSt; FSel; FDef; FLast]); [reflexivity| |reflexivity]. pres_now. }
+      rewrite app_nil_r in Hq0.
+      destruct res as [r|].
+      * destruct (end_unsol cfg s3 is_null r) as [[s4 ns4] o4] eqn:Ee.
+        apply end_unsol_spec in Ee. destruct Ee as [A4 [B4 C4]].
+        destruct (idle_run f cfg (St3 ns4) s4) as [s5 o5] eqn:Er. inversion H; subst s' out. clear H.
+        apply IH in Er.
+        assert (Hp4 : s_pending s4 = None) by (pget FPend A4; congruence).
+        apply (ir_res_none_quiet _ _ _ _ Hp4) in Er. destruct Er as [Q5 P5].
+        right. exists (from, bc, bytes, d, fid), (upd_pending s2 None), s3, o2, o3, (o4 ++ o5).
+        split; [congruence|]. split; [exact Hq0|]. split; [reflexivity|]. split; [exact Hpr|].
+        split; [eapply quiet_trans; [|exact Q5]; apply (quiet_of_pres fnoctl); auto|]. split; [exact P5|reflexivity].
+      * inversion H; subst s' out. clear H.
+        right. exists (from, bc, bytes, d, fid), (upd_pending s2 None), s3, o2, o3, [].
+        split; [congruence|]. split; [exact Hq0|]. split; [reflexivity|]. split; [exact Hpr|].
+        split; [apply quiet_refl|]. split; [exact Hp3|]. rewrite app_nil_r. reflexivity.
+  - (* St3 *)
+    destruct (handle_deferred cfg s ns) as [s3 o3] eqn:Ed.
+    apply handle_deferred_spec in Ed. destruct Ed as [A [B [C [D E]]]].
+    assert (Hq : quiet s s3 o3).
+    { split; [eapply pres_sub; [|exact A]; reflexivity|]. split; [exact B|]. intros Hn. rewrite (D Hn). auto. }
+    assert (Hp : s_pending s3 = s_pending s) by (pget FPend A; exact P).
+    destruct (s_control s3) eqn:Ec.
+    + destruct (idle_run f cfg (St4 ns) s3) as [s4 o4] eqn:Er. inversion H; subst s' out.
+      apply IH in Er. eapply ir_res_before; eauto.
+    + inversion H; subst s' out. left. split; [exact Hq|exact Hp].
+    + inversion H; subst s' out. left. split; [exact Hq|exact Hp].
+  - (* St4 *)
+    destruct (s_pending s) eqn:Ep; [apply IH in H; exact H|].
+    destruct ns; [apply IH in H; exact H|].
+    destruct (s_notify s).
+    + apply IH in H. change out with ([] ++ out). eapply ir_res_before; [| |exact H]; [|reflexivity].
+      apply (quiet_of_pres [FNow; FFid; FSelSt; FOpSt; FSel; FDef; FLast]); [reflexivity| |reflexivity]. pres_now.
+    + inversion H; subst. left. split; [apply quiet_refl|reflexivity].
+Qed.
+
+(* ---------- idle_run: the fuel suffices, nothing stays pending ---------- *)
+Definition is_unsol_wait (c : control) : Prop := match c with CUnsolWait _ _ _ _ => True | _ => False end.
+
+Definition J (s : ostate) : Prop :=
+  s_pending s = None /\ (s_deferred s = None \/ is_unsol_wait (s_control s)).
+
+Definition b2 (b : bool) : nat := if b then 1%nat else 0%nat.
+Definition pflag (s : ostate) : bool := match s_pending s with Some _ => true | None => false end.
+Definition dflag (s : ostate) : bool := match s_deferred s with Some _ => true | None => false end.
+
+Definition need (st : stage) (p n d : bool) : nat :=
+  match st with
+  | St1 => 4 + 4 * b2 (n || d)
+  | St2 => if p then 11 else 3 + 4 * b2 (n || d)
+  | St3 ns => 2 + 4 * (b2 (p || ns) + b2 (n || d))
+  | St4 ns => 1 + 4 * (b2 (p || ns) + b2 n)
+  end%nat.
+
+Definition pre (st : stage) (s : ostate) : Prop :=
+  s_control s = CIdle /\
+  match st with
+  | St3 _ => s_pending s = None \/ s_deferred s = None
+  | _ => s_deferred s = None
+  end.
+
+Lemma handle_deferred_notify cfg s ns s1 o :
+  handle_deferred cfg s ns = (s1, o) -> s_deferred s <> None -> s_notify s1 = true.
+Proof.
+  unfold handle_deferred. destruct (s_deferred s) as [d|] eqn:Ed; [|congruence]. intros H _. revert H.
+  destruct (ask_iin2 (upd_notify (upd_deferred s None) true) DbDeferredSelect) as [[sa iin2] oa] eqn:Ea.
+  apply ask_iin2_pres in Ea. destruct Ea as [A1 A2].
+  destruct (format_read_response sa true (df_seq d) (N.lor (df_iin2 d) iin2)) as [[[sb r] se] ob] eqn:Eb.
+  apply format_read_response_pres in Eb. destruct Eb as [B1 B2].
+  destruct (write_solicited sb (df_from d) r) as [[sc r'] oc] eqn:Ec.
+  apply write_solicited_pres in Ec. destruct Ec as [C1 [C2 _]].
+  assert (Nc : s_notify sc = true).
+  { pget FNotify A1. pget FNotify B1. pget FNotify C1. prj. congruence. }
+  cbv zeta. destruct se as [x|]; [|destruct (ctl_con (r_ctl r'))]; intros H; inversion H; subst; prj; exact Nc.
+Qed.
+
+Lemma b2_le1 b : (b2 b <= 1)%nat.
+Proof. destruct b; cbn; lia. Qed.
+
+Lemma idle_run_J cfg : forall f st s s' out,
+  (need st (pflag s) (s_notify s) (dflag s) <= f)%nat -> pre st s ->
+  idle_run f cfg st s = (s', out) -> J s'.
+Proof.
+  induction f as [|f IH]; intros st s s' out Hn [Hc Hpre] H.
+  { exfalso. destruct st; cbn [need] in Hn; try lia. destruct (pflag s); lia. }
+  cbn [idle_run] in H. destruct st as [| |ns|ns].
+  - (* St1 *)
+    destruct (s_pending s) as [[[[[from bc] bytes] d] fid]|] eqn:Ep.
+    + destruct (handle_from_idle cfg (upd_pending s None) from bc bytes d fid) as [s1 o1] eqn:Eh.
+      apply handle_from_idle_spec in Eh. destruct Eh as [A [B _]]. prj.
+      pget FPend A. pget FNotify A. pget FDef A. prj.
+      destruct B as [B|[x [dl B]]].
+      * rewrite B, Hc in H. destruct (idle_run f cfg St2 s1) as [s2 o2] eqn:Er. inversion H; subst s' out.
+        eapply (IH St2 s1); [|split; [congruence|congruence]|exact Er].
+        unfold pflag, dflag in *. rewrite P, P0, P1. rewrite Hpre in *. cbn [need] in *. lia.
+      * rewrite B in H. inversion H; subst s' out. split; [exact P|left; congruence].
+    + rewrite Hc in H. destruct (idle_run f cfg St2 s) as [s2 o2] eqn:Er. inversion H; subst s' out.
+      eapply (IH St2 s); [|split; assumption|exact Er].
+      unfold pflag, dflag in *. rewrite Ep, Hpre in *. cbn [need] in *. lia.
+  - (* St2 *)
+    destruct (check_unsolicited cfg s) as [[s2 ns2] o2] eqn:Ecu.
+    apply check_unsolicited_spec in Ecu. destruct Ecu as [A [_ C]].
+    pget FPend A. pget FNotify A. pget FDef A.
+    destruct C as [C|[r1 [isn [rt [dl C]]]]].
+    + rewrite C, Hc in H. destruct (idle_run f cfg (St3 false) s2) as [s3 o3] eqn:Er. inversion H; subst s' out.
+      eapply (IH (St3 false) s2); [|split; [congruence|right; congruence]|exact Er].
+      unfold pflag, dflag in *. rewrite P, P0, P1. rewrite Hpre in *. cbn [need] in *.
+      destruct (s_pending s); cbn [b2 orb] in *; pose proof (b2_le1 (s_notify s || false)); lia.
+    + rewrite C in H. destruct (s_pending s2) as [[[[[from bc] bytes] d] fid]|] eqn:Ep2.
+      2:{ inversion H; subst s' out. split; [exact Ep2|right; rewrite C; exact I]. }
+      destruct (unsol_wait_fragment cfg (upd_pending s2 None) r1 from bc bytes d fid) as [[s3 res] o3] eqn:Eu.
+      apply unsol_wait_fragment_spec in Eu. destruct Eu as [A3 _].
+      pget FPend A3. pget FNotify A3. pget FCtl A3. prj.
+      destruct res as [r|].
+      * destruct (end_unsol cfg s3 isn r) as [[s4 ns4] o4] eqn:Ee.
+        apply end_unsol_spec in Ee. destruct Ee as [A4 [_ C4]].
+        pget FPend A4. pget FNotify A4.
+        destruct (idle_run f cfg (St3 ns4) s4) as [s5 o5] eqn:Er. inversion H; subst s' out.
+        eapply (IH (St3 ns4) s4); [|split; [exact C4|left; congruence]|exact Er].
+        assert (Hp : pflag s = true) by (unfold pflag; rewrite <- P; reflexivity).
+        rewrite Hp in Hn. cbn [need] in Hn |- *.
+        assert (Hp4 : pflag s4 = false) by (unfold pflag; rewrite P5, P2; reflexivity).
+        rewrite Hp4. cbn [orb]. pose proof (b2_le1 ns4). pose proof (b2_le1 (s_notify s4 || dflag s4)). lia.
+      * inversion H; subst s' out. split; [exact P2|right; rewrite P4, C; exact I].
+  - (* St3 *)
+    destruct (handle_deferred cfg s ns) as [s3 o3] eqn:Ed.
+    pose proof (handle_deferred_notify _ _ _ _ _ Ed) as Hnot.
+    apply handle_deferred_spec in Ed. destruct Ed as [A [_ [D [E F]]]].
+    pget FPend A.
+    destruct F as [F|[x [dl F]]].
+    + rewrite F, Hc in H. destruct (idle_run f cfg (St4 ns) s3) as [s4 o4] eqn:Er. inversion H; subst s' out.
+      eapply (IH (St4 ns) s3); [|split; [congruence|exact D]|exact Er].
+      unfold pflag, dflag in *. rewrite P. cbn [need] in *.
+      destruct (s_deferred s) as [dd|] eqn:Edd.
+      * rewrite Hnot by discriminate. rewrite orb_true_r in Hn. cbn [b2] in *. lia.
+      * rewrite (E eq_refl). rewrite orb_false_r in Hn. lia.
+    + rewrite F in H. inversion H; subst s' out. split; [|left; exact D].
+      rewrite P. destruct Hpre as [Hpre|Hpre]; [exact Hpre|]. rewrite (E Hpre) in F. congruence.
+  - (* St4 *)
+    destruct (s_pending s) as [fr|] eqn:Ep.
+    + eapply (IH St1 s); [|split; assumption|exact H].
+      unfold pflag, dflag in *. rewrite Ep, Hpre in *. cbn [need orb b2] in *. rewrite orb_false_r. lia.
+    + destruct ns.
+      * eapply (IH St1 s); [|split; assumption|exact H].
+        unfold pflag, dflag in *. rewrite Ep, Hpre in *. cbn [need orb b2] in *. rewrite orb_false_r. lia.
+      * destruct (s_notify s) eqn:En.
+        -- eapply (IH St1 (upd_notify s false)); [|split; assumption|exact H].
+           unfold pflag, dflag in *. prj. rewrite Hpre. rewrite Ep in Hn. cbn [need orb b2] in *. lia.
+        -- inversion H; subst. split; [exact Ep|left; exact Hpre].
+Qed.
+
+Lemma need_le st p n d : (need st p n d <= 12)%nat.
+Proof. destruct st as [| |ns|ns]; try destruct ns; destruct p, n, d; cbn; lia. Qed.
+
+Lemma idle_run32_J cfg st s s' out : pre st s -> idle_run 32 cfg st s = (s', out) -> J s'.
+Proof.
+  intros Hp H. eapply idle_run_J; [|exact Hp|exact H].
+  pose proof (need_le st (pflag s) (s_notify s) (dflag s)). lia.
+Qed.
+
+Lemma idle_loop8 cfg s : idle_loop 8 cfg s = idle_run 32 cfg St1 s.
+Proof. reflexivity. Qed.
+
+Lemma stage_of_pre r s : s_control s = CIdle -> s_deferred s = None -> pre (stage_of r) s.
+Proof. intros H1 H2. destruct r; split; assumption. Qed.
+
+(* quiet up to the clock *)
+Definition fqt : list fld := [FFid; FSelSt; FOpSt; FSel].
+
+Definition quietT (s s' : ostate) (o : list oobs) : Prop :=
+  pres fqt s s' /\ no_cb o /\ (s_deferred s = None -> s_deferred s' = None /\ s_last s' = s_last s).
+
+Lemma quiet_quietT s s' o : quiet s s' o -> quietT s s' o.
+Proof. intros [A [B C]]. split; [eapply pres_sub; [|exact A]; reflexivity|auto]. Qed.
+
+Lemma quietT_refl s : quietT s s [].
+Proof. apply quiet_quietT, quiet_refl. Qed.
+
+Lemma quietT_trans s1 s2 s3 o1 o2 : quietT s1 s2 o1 -> quietT s2 s3 o2 -> quietT s1 s3 (o1 ++ o2).
+Proof.
+  intros [A1 [B1 C1]] [A2 [B2 C2]]. split; [eapply pres_trans; eauto|]. split; [apply no_cb_app; auto|].
+  intros H. destruct (C1 H) as [D1 L1]. destruct (C2 D1) as [D2 L2]. split; [exact D2|congruence].
+Qed.
+
+Lemma quietT_upd_now s t : quietT s (upd_now s t) [].
+Proof. split; [pres_now|]. split; [reflexivity|]. intros H. prj. auto. Qed.
+
+Lemma J_upd_now s t : J s -> J (upd_now s t).
+Proof. intros H. exact H. Qed.
+
+(* ---------- deadlines ---------- *)
+Lemma resume_at_spec cfg st s s' o :
+  pre st s -> s_pending s = None -> resume_at cfg st s = (s', o) -> quiet s s' o /\ J s'.
+Proof.
+  unfold resume_at. intros Hpre Hp H. split.
+  - apply idle_run_safe in H. apply ir_res_none_quiet in H; [|exact Hp]. apply H.
+  - eapply idle_run32_J; eauto.
+Qed.
+
+Lemma idle_loop_spec cfg s s' o :
+  pre St1 s -> s_pending s = None -> idle_loop 8 cfg s = (s', o) -> quiet s s' o /\ J s'.
+Proof.
+  rewrite idle_loop8. intros Hpre Hp H. split.
+  - apply idle_run_safe in H. apply ir_res_none_quiet in H; [|exact Hp]. apply H.
+  - eapply idle_run32_J; eauto.
+Qed.
+
+Lemma fire_deadline_spec cfg s s' o :
+  J s -> fire_deadline cfg s = (s', o) -> quiet s s' o /\ J s'.
+Proof.
+  intros [Jp Jd] H. unfold fire_deadline in H. destruct (s_control s) as [|se dl r|resp is_null retries dl] eqn:Ec.
+  - destruct Jd as [Jd|Jd]; [|destruct Jd].
+    eapply resume_at_spec; [|exact Jp|exact H]. split; assumption.
+  - destruct Jd as [Jd|Jd]; [|destruct Jd].
+    destruct (resume_at cfg (stage_of r) (upd_control s CIdle)) as [s1 o1] eqn:Er.
+    inversion H; subst s' o. clear H.
+    assert (Hq0 : quiet s (upd_control s CIdle) [OInfo (ISolTimeout (se_ecsn se)); ODb DbReset]).
+    { apply (quiet_of_pres [FNow; FFid; FSelSt; FOpSt; FSel; FDef; FLast]); [reflexivity|pres_now|reflexivity]. }
+    apply resume_at_spec in Er; [|apply stage_of_pre; [reflexivity|exact Jd]|exact Jp].
+    destruct Er as [Q1 J1]. split; [|exact J1].
+    exact (quiet_trans _ _ _ _ _ Hq0 Q1).
+  - set (can_retry := match retries with Some 0%nat => false | _ => true end) in H.
+    destruct (can_retry && match s_deferred s with Some _ => false | None => true end).
+    + inversion H; subst s' o. clear H. split.
+      * apply (quiet_of_pres [FNow; FFid; FSelSt; FOpSt; FSel; FDef; FLast]); [reflexivity|pres_now|reflexivity].
+      * split; [exact Jp|right; exact I].
+    + destruct (end_unsol cfg s is_null UrTimeout) as [[s1 ns] o1] eqn:Ee.
+      apply end_unsol_spec in Ee. destruct Ee as [A [B C]].
+      destruct (resume_at cfg (St3 ns) s1) as [s2 o2] eqn:Er.
+      inversion H; subst s' o. clear H.
+      assert (Hp1 : s_pending s1 = None) by (pget FPend A; congruence).
+      apply resume_at_spec in Er; [|split; [exact C|left; exact Hp1]|exact Hp1].
+      destruct Er as [Q2 J2]. split; [|exact J2].
+      assert (Q0 : quiet s s [OInfo (IUnsolTimeout (ctl_seq (r_ctl resp)) false)]).
+      { apply (quiet_of_pres fall); [reflexivity|apply pres_refl|reflexivity]. }
+      assert (Q1 : quiet s s1 o1) by (apply (quiet_of_pres fnoctl); [reflexivity|exact A|exact B]).
+      exact (quiet_trans _ _ _ _ _ Q0 (quiet_trans _ _ _ _ _ Q1 Q2)).
+Qed.
+
+Lemma advance_spec cfg target : forall f s s' o,
+  J s -> advance f cfg s target = (s', o) -> quietT s s' o /\ J s' /\ s_now s' = target.
+Proof.
+  induction f as [|f IH]; intros s s' o HJ H; cbn [advance] in H.
+  { inversion H; subst. split; [|split; [exact HJ|reflexivity]].
+    split; [pres_now|]. split; [reflexivity|]. intros Hd; prj; auto. }
+  destruct (next_deadline cfg s) as [dl|].
+  2:{ inversion H; subst. split; [apply quietT_upd_now|split; [exact HJ|reflexivity]]. }
+  destruct (dl <=? target)%Z.
+  2:{ inversion H; subst. split; [apply quietT_upd_now|split; [exact HJ|reflexivity]]. }
+  destruct (fire_deadline cfg (upd_now s (Z.max dl (s_now s)))) as [s1 o1] eqn:Ef.
+  apply fire_deadline_spec in Ef; [|exact HJ]. destruct Ef as [Q1 J1].
+  destruct (advance f cfg s1 target) as [s2 o2] eqn:Ea. inversion H; subst s' o. clear H.
+  apply IH in Ea; [|exact J1]. destruct Ea as [Q2 [J2 N2]].
+  split; [|split; assumption].
+  change (OAt (Z.max dl (s_now s)) :: o1 ++ o2) with ([OAt (Z.max dl (s_now s))] ++ o1 ++ o2).
+  eapply quietT_trans; [|eapply quietT_trans; [apply quiet_quietT; exact Q1|exact Q2]].
+  split; [pres_now|]. split; [reflexivity|]. intros Hd; prj; auto.
+Qed.
+
+(* ---------- a fragment in the solicited confirm wait ---------- *)
+Definition skipped (cfg : ocfg) (from : N) (bc : option bcast_mode) (d : digest) : Prop :=
+  to_treq cfg from d = TqNone \/
+  exists ctl fn obj, to_treq cfg from d = TqRequest ctl fn obj /\ bc = None /\ (fn = fn_confirm \/ fn = fn_read).
+
+Lemma sol_wait_fragment_spec cfg s se dl from bc bytes d out o :
+  sol_wait_fragment cfg s se dl from bc bytes d = (out, o) ->
+  no_cb o /\ (out = SoNewRequest \/ skipped cfg from bc d).
+Proof.
+  unfold sol_wait_fragment, skipped. destruct (to_treq cfg from d) as [|eseq|ctl fn obj] eqn:Et.
+  - intros H; inversion H; subst. split; [reflexivity|right; left; reflexivity].
+  - intros H; inversion H; subst. split; [reflexivity|left; reflexivity].
+  - destruct bc as [m|]; [cbn [classify]; intros H; inversion H; subst; split; [reflexivity|left; reflexivity]|].
+    unfold classify. destruct (fn =? fn_confirm) eqn:E0.
+    { apply N.eqb_eq in E0.
+      assert (Hsk : exists ctl0 fn0 obj0, TqRequest ctl fn obj = TqRequest ctl0 fn0 obj0 /\ @None bcast_mode = None /\ (fn0 = fn_confirm \/ fn0 = fn_read)).
+      { exists ctl, fn, obj. auto. }
+      destruct (ctl_uns ctl).
+      - intros H; inversion H; subst. split; [reflexivity|right; right; exact Hsk].
+      - destruct (ctl_seq ctl =? se_ecsn se); intros H; inversion H; subst; (split; [reflexivity|right; right; exact Hsk]). }
+    destruct obj as [iin2|hdrs rh]; [intros H; inversion H; subst; split; [reflexivity|left; reflexivity]|].
+    destruct (match s_last s with Some l => (lr_seq l =? ctl_seq ctl) && bytes_eqb (lr_bytes l) bytes | None => false end).
+    + destruct (fn =? fn_read) eqn:E1.
+      * apply N.eqb_eq in E1. intros H; inversion H; subst out o. split.
+        -- destruct (match s_last s with Some l => lr_response l | None => None end); reflexivity.
+        -- right. right. exists ctl, fn, (ObjOk hdrs rh). auto.
+      * intros H; inversion H; subst; split; [reflexivity|left; reflexivity].
+    + destruct (fn =? fn_read); intros H; inversion H; subst; split; try reflexivity; left; reflexivity.
 Qed.
